@@ -1,5 +1,6 @@
 """C20 - conversion and export.  Rules POST, FLOW, EOSFLOW (+DEAD evidence), ONCE."""
 import ast
+from .. import roles
 from ..core import AnalysisError, norm, dotted, call_name, walk_no_nested, is_self_attr, const_str
 from ..formula import check_formula, compare
 from .. import flow
@@ -221,6 +222,36 @@ def rule_flow(run):
         run.violated(key, 'generators of types TOUGH2 lacks are collected in %s but never removed from %s%s: they survive '
                      'the conversion' % (sorted(collected), ' and '.join('self.' + m for m in miss),
                                          ' (the list is only printed)' if only_reported else ''), where=fi.where())
+    # ... on every combination of kept and deleted generators: the function is interpreted on model generator lists
+    # ('MASS' exists in both simulators, 'XXXX' in neither) and the post-state compared with the specification
+    from ..consteval import Interp, Obj
+    delete_model = lambda *a, **k: None
+    for types in ([], ['XXXX'], ['MASS'], ['XXXX', 'MASS'], ['MASS', 'XXXX', 'XXXX'], ['XXXX', 'XXXX'], ['MASS', 'MASS']):
+        k2 = 't2data.convert_AUTOUGH2_generators_to_TOUGH2 :: model with generator types %s' % types
+        gens = []
+        for i, t in enumerate(types):
+            g = Obj(); g.attrs.update(type=t, block='blk%d' % i, name='gen%d' % i); gens.append(g)
+        me = Obj()
+        me.attrs['generatorlist'] = list(gens)
+        me.attrs['generator'] = dict(((g.attrs['block'], g.attrs['name']), g) for g in gens)
+        def delgen(key, me=me):
+            g = me.attrs['generator'].pop(tuple(key) if isinstance(key, (list, tuple)) else key)
+            me.attrs['generatorlist'].remove(g)
+        me.attrs['__methods__'] = {'delete_generator': delgen}
+        try:
+            Interp({}, max_steps=20000).call_function(fi.node, [me, False])
+        except AnalysisError as e:
+            run.unknown(k2, 'left the constant-evaluation whitelist: %s' % e, where=fi.where()); continue
+        want = [g for g in gens if g.attrs['type'] != 'XXXX']
+        gl, gd = me.attrs['generatorlist'], me.attrs['generator']
+        okl = len(gl) == len(want) and all(a is b for a, b in zip(gl, want))
+        okd = isinstance(gd, dict) and sorted(gd.keys()) == sorted((g.attrs['block'], g.attrs['name']) for g in want) and \
+            all(gd[(g.attrs['block'], g.attrs['name'])] is g for g in want)
+        if okl and okd: run.ok(k2, {'kept': len(want)}, where=fi.where())
+        else:
+            run.violated(k2, 'after the conversion the generator list holds types %s and the lookup %d entries; %d generator(s) of a type TOUGH2 lacks '
+                         'should have been removed from both' % ([g.attrs['type'] for g in gl], len(gd) if isinstance(gd, dict) else -1,
+                                                                 len(gens) - len(want)), where=fi.where(), robust=True)
     # convertible types are rewritten in place
     conv = [n for n in ast.walk(fi.node) if isinstance(n, ast.Assign) and norm(n.targets[0]) == 'gen.type']
     run.check(len(conv) == 1 and norm(conv[0].value) == 'convert[gen.type]', 't2data.convert_AUTOUGH2_generators_to_TOUGH2 :: convertible types mapped',
@@ -251,7 +282,12 @@ def rule_eosflow(run):
     h = hits[0]
     lv = h.test.args[0].id
     stores = [s for s in h.body if isinstance(s, ast.Assign) and isinstance(s.targets[0], ast.Name)]
-    good = [s for s in stores if s.targets[0].id == res and norm(s.value) == lv]
+    # the result variable, or a variable copied into it afterwards (a helper's own local once the helper is spliced in: N8)
+    feeds = set([res])
+    for _ in range(3):
+        for nm, v, st in roles.assignments(fi.node):
+            if nm in feeds and isinstance(v, ast.Name): feeds.add(v.id)
+    good = [s for s in stores if s.targets[0].id in feeds and norm(s.value) == lv]
     if good: run.ok(key, where=fi.where(good[0]))
     else:
         run.violated(key, 'the matched EOS name is stored in %s, never in %s: with the EOS given only by the simulator string '
@@ -263,8 +299,28 @@ def rule_eosflow(run):
     for n in ast.walk(fi.node):
         if isinstance(n, ast.For) and h in list(ast.walk(n)): loop = n
     key3 = 't2data.eos_json :: longest EOS name wins among suffix-related names'
-    if tabn and loop is not None and norm(loop.iter) in ('supported_eos.keys()', 'supported_eos'):
-        keys = [const_str(k) for k in tabn[0].value.keys]
+    def order_of(e, keys):
+        t = norm(e)
+        if t in ('supported_eos.keys()', 'supported_eos', 'list(supported_eos.keys())', 'list(supported_eos)'): return list(keys)
+        if isinstance(e, ast.Call) and isinstance(e.func, ast.Name) and e.func.id in ('sorted', 'reversed', 'list') and len(e.args) == 1:
+            inner = order_of(e.args[0], keys)
+            if inner is None: return None
+            if e.func.id == 'list' and not e.keywords: return inner
+            if e.func.id == 'reversed' and not e.keywords: return inner[::-1]
+            if e.func.id == 'sorted':
+                kw = dict((k.arg, k.value) for k in e.keywords)
+                if set(kw) - set(['key', 'reverse']): return None
+                rev = kw.get('reverse')
+                if rev is not None and not (isinstance(rev, ast.Constant) and isinstance(rev.value, bool)): return None
+                kf = kw.get('key')
+                if kf is None: f = lambda x: x
+                elif isinstance(kf, ast.Name) and kf.id == 'len': f = len
+                else: return None
+                return sorted(inner, key=f, reverse=bool(rev is not None and rev.value))
+        return None
+    keys0 = [const_str(k) for k in tabn[0].value.keys] if tabn else None
+    keys = order_of(loop.iter, keys0) if (tabn and loop is not None and None not in keys0) else None
+    if keys is not None:
         first_wins = any(isinstance(x, ast.Break) for x in ast.walk(h))
         bad = []
         for i, a in enumerate(keys):
@@ -320,8 +376,6 @@ def rule_once(run):
         bn = lp.target.id
         check_formula(run, 't2data.rocks_json :: block looked up by its own name', fi, 'blk', 'self.grid.block[%s]' % bn,
                       'the block is not the one named by the loop variable')
-        check_formula(run, 't2data.rocks_json :: rock type of that block', fi, 'rockname', 'blk.rocktype.name',
-                      'the rock name is not that of the block')
         check_formula(run, 't2data.rocks_json :: cell index', fi, 'blk_index', 'geo.block_name_index[blk.name] - geo.num_atmosphere_blocks',
                       'cell index is not block index minus the number of atmosphere blocks',
                       alternatives=['geo.block_name_index[%s] - geo.num_atmosphere_blocks' % bn])
@@ -333,8 +387,12 @@ def rule_once(run):
             run.ok(key, where=fi.where(apps[0]))
             a = apps[0]
             tgt = norm(a.func.value)
-            r = compare(a.func.value, "jsondata['rock']['types'][rock_index[rockname]]['cells']")
+            # the list appended to, with the loop's locals (the rock name, ...) replaced by their definitions
+            full = roles.inline_locals(a.func.value, [st for st in lp.body])
+            r = compare(full, "jsondata['rock']['types'][rock_index[blk.rocktype.name]]['cells']",
+                        ["jsondata['rock']['types'][rock_index[self.grid.block[%s].rocktype.name]]['cells']" % bn])
             k2 = 't2data.rocks_json :: appended to the cells of the block\'s own rock type'
+            run.ok('t2data.rocks_json :: rock type of that block', norm(full), where=fi.where(a)) if r == 'equal' else None
             if r == 'equal': run.ok(k2, where=fi.where(a))
             elif r == 'different': run.violated(k2, 'index appended to `%s`' % tgt, where=fi.where(a))
             else: run.unknown(k2, tgt, where=fi.where(a))
@@ -402,7 +460,50 @@ def rule_pair(run):
               only=lambda fi, owner: fi.name.startswith('convert_') or fi.name in ('delete_generator', 'clear_generators', 'delete_orphan_generators'))
 
 
+def rule_simulfirst(run):
+    run.rule('SIMULFIRST', 'the SIMUL section tells the reader that the sections after it are in AUTOUGH2 layout, so the conversion must '
+             'put it first whatever order the other sections are in: section_insertion_index() returns 0 for the first entry of the '
+             'canonical section list before any search relative to the sections present', floor=1)
+    prog = run.prog
+    fi = prog.func(CLS + 'section_insertion_index')
+    key = 't2data.section_insertion_index :: first canonical section (SIMUL) is inserted at index 0'
+    sec = fi.params[1]
+    idx = [nm for nm, v, st in roles.assignments(fi.node)
+           if isinstance(v, ast.Call) and isinstance(v.func, ast.Attribute) and v.func.attr == 'index' and norm(v.func.value) == 't2data_sections'
+           and v.args and norm(v.args[0]) == sec]
+    def is_first_test(t):
+        if not (isinstance(t, ast.Compare) and len(t.ops) == 1 and isinstance(t.ops[0], ast.Eq)): return False
+        a, b = norm(t.left), norm(t.comparators[0])
+        pair = set([a, b])
+        return any(pair == set([i, '0']) for i in idx) or pair == set([sec, "'SIMUL'"]) or pair == set([sec, 't2data_sections[0]'])
+    def ret0(stmts):
+        return bool(stmts) and isinstance(stmts[0], ast.Return) and isinstance(stmts[0].value, ast.Constant) and stmts[0].value.value == 0 \
+            and not isinstance(stmts[0].value.value, bool)
+    special = [n for n in ast.walk(fi.node) if isinstance(n, ast.If) and is_first_test(n.test) and ret0(n.body)]
+    special += [n for n in ast.walk(fi.node) if isinstance(n, ast.If) and isinstance(n.test, ast.UnaryOp) and isinstance(n.test.op, ast.Not)
+                and is_first_test(n.test.operand) and ret0(n.orelse)]
+    special += [n for n in ast.walk(fi.node) if isinstance(n, ast.If) and isinstance(n.test, ast.Compare) and len(n.test.ops) == 1 and
+                isinstance(n.test.ops[0], ast.NotEq) and is_first_test(ast.Compare(left=n.test.left, ops=[ast.Eq()], comparators=n.test.comparators))
+                and ret0(n.orelse)]
+    loops = [n for n in ast.walk(fi.node) if isinstance(n, (ast.For, ast.While))]
+    if special:
+        first_loop = min([l.lineno for l in loops] or [10 ** 9])
+        inside = any(sp in list(ast.walk(l)) for l in loops for sp in special)
+        if special[0].lineno < first_loop and not inside: run.ok(key, norm(special[0].test), where=fi.where(special[0]))
+        else: run.unknown(key, 'the special case does not precede the search loops', where=fi.where(special[0]))
+        return
+    mentions = any(isinstance(c, ast.Compare) and (("'SIMUL'" in norm(c)) or any(i in [x.id for x in ast.walk(c) if isinstance(x, ast.Name)] for i in idx))
+                   and not any(c in list(ast.walk(l.iter)) for l in loops if isinstance(l, ast.For)) for c in ast.walk(fi.node))
+    if mentions or not loops:
+        run.unknown(key, 'no recognised `first section -> 0` case, but the index is compared somewhere', where=fi.where()); return
+    run.violated(key, 'no case returns 0 for the first canonical section: the general search puts SIMUL just before the first lower-ranked '
+                 'section *in canonical order* that is present (normally ROCKS), which is index 0 only when the sections themselves are in '
+                 'canonical order; for a model read from a file with PARAM or MULTI ahead of ROCKS, the converted file has SIMUL after '
+                 'them and they are re-read with the TOUGH2 layout', where=fi.where(), robust=True)
+
+
 def check(run):
+    run.guarded('SIMULFIRST', rule_simulfirst)
     run.guarded('PAIR', rule_pair)
     run.guarded('POST', rule_post)
     run.guarded('FLOW', rule_flow)
